@@ -224,3 +224,23 @@ _ROUND6 = {
 }
 for _k, _v in _ROUND6.items():
     META[_k]["text"] += " " + _v
+
+# dimensions added after the seventh round (degenerate, repeated and interacting uses)
+_ROUND7 = {
+    "C02": "Calls may carry an expected value and an expected check together.",
+    "C03": "A fifth of the collection subscriptions are filtered views whose predicate reads a field that masked subscriptions do not see.",
+    "C07": "Metadata collections and memory devices are discovered and driven next to the models.",
+    "C08": "The booking stream is also taken from the server's own PullBookings RPC.",
+    "C09": "The lossy collection tests also write the empty id.",
+    "C12": "Child clients also fail with plain (non-status) errors such as a wrapped io.EOF.",
+    "C13": "The dynamicpb client may hold an older copy of the schema; what it receives as unknown fields is compared byte for byte.",
+    "C14": "A fan-speed specific test moves the percentage in steps of 0.004 around the model's 0.01 tolerance with streams opened in the middle and tracks exactly what each stream holds.",
+    "C15": "The plain walk is repeated after the masked one; a hail model restored from initial records (half of them long arrived) joined the pagers.",
+    "C16": "A float tolerance is combined with an include threshold inside it (entries and exits are never equivalent); the inert-kind check compares canonical durations and timestamps.",
+    "C17": "An exhaustive layer runs every strategy with the caller's context live, cancelled or past its deadline.",
+    "C18": "Magnitudes include binary fractions; modes may start at the unix epoch.",
+    "C19": "Set-active and change-active also name the empty id.",
+    "C20": "Quantities may leave the unit unset; a publication restored without a version must get its content's version when rewritten.",
+}
+for _k, _v in _ROUND7.items():
+    META[_k]["text"] += " " + _v
